@@ -118,8 +118,35 @@ func (t *Table) Add(r rm.Route) {
 
 // Serve dispatches one request and returns what was observed; a panic escaping ServeHTTP is returned.
 func (t *Table) Serve(method, path string) (o Obs, panicked any) {
+	return t.ServeRaw(method, path, 0)
+}
+
+// RawPathFor spells path the way a client may: the bytes selected by mask are percent-encoded (so the result decodes
+// back to path). net/http keeps such a spelling in URL.RawPath next to the decoded URL.Path.
+func RawPathFor(path string, mask uint64) string {
+	if mask == 0 {
+		return ""
+	}
+	var sb strings.Builder
+	for i := 0; i < len(path); i++ {
+		if mask>>(uint(i)%64)&1 == 1 && (i > 0 || path[i] != '/') {
+			fmt.Fprintf(&sb, "%%%02X", path[i])
+		} else {
+			sb.WriteByte(path[i])
+		}
+	}
+	return sb.String()
+}
+
+// ServeRaw is Serve with URL.RawPath set to an alternative spelling of path (rawMask selects the encoded bytes).
+func (t *Table) ServeRaw(method, path string, rawMask uint64) (o Obs, panicked any) {
 	t.Cur = &Obs{Route: -2}
-	req := &http.Request{Method: method, URL: &url.URL{Path: path}, Header: http.Header{}, RequestURI: path, RemoteAddr: "192.0.2.1:1234"}
+	u := &url.URL{Path: path, RawPath: RawPathFor(path, rawMask)}
+	reqURI := path
+	if u.RawPath != "" {
+		reqURI = u.RawPath
+	}
+	req := &http.Request{Method: method, URL: u, Header: http.Header{}, RequestURI: reqURI, RemoteAddr: "192.0.2.1:1234"}
 	func() {
 		defer func() { panicked = recover() }()
 		t.Mux.ServeHTTP(&nullWriter{}, req)
